@@ -90,6 +90,8 @@ def make_points(case):
     b = case.get("bits")
     if b:
         p = (np.round(p * 2.0 ** b) / 2.0 ** b) % 1.0
+    if case.get("f32"):
+        p = p.astype(np.float32).astype(float)      # values exactly representable in single precision
     return p
 
 
@@ -622,7 +624,8 @@ def prepare_case(ctx, case):
     if case["style"] == "grid":
         fam = f"grid{case['den']}/shift={int(shift)}"
     try:
-        lat = voronization.generate_lattice(points.copy(), shift_vertices=shift)
+        # a float32 input array holds exactly the same numbers: the lattice must be the same as for float64 input
+        lat = voronization.generate_lattice(points.astype(np.float32) if case.get("f32") else points.copy(), shift_vertices=shift)
         Lpos = np.array(lat.vertices.positions, dtype=float)
         Ledges = np.array(lat.edges.indices, dtype=int).reshape(-1, 2)
         Lcross = np.array(lat.edges.crossing, dtype=int).reshape(-1, 2)
@@ -871,7 +874,7 @@ def gen_cases(tier, seed, count=None):
         else:
             n = int(rng.integers(2, nmax + 1))
         cases.append({"style": style, "n": n, "seed": int(rng.integers(0, 2 ** 31)), "shift": bool((i // 6) % 2),
-                      "bits": (None if (i // 12) % 3 == 2 else 30), "lloyd": (i % 5 == 0)})
+                      "bits": (None if (i // 12) % 3 == 2 else 30), "lloyd": (i % 5 == 0), "f32": (i % 5 == 2)})
     for i in range(count // 6):
         den = (8, 16, 32)[i % 3]
         cases.append({"style": "grid", "den": den, "n": int(rng.integers(2, 9 if den == 8 else 14)), "seed": int(rng.integers(0, 2 ** 31)),
